@@ -199,8 +199,10 @@ CHECKS["C16"] = dict(
     "over lxml, start tags before/after, own-text projection for search / search_first / search_all / match / text_at, characters and white-space encoding "
     "after formatted replace, text outside the target untouched.",
     note="`re` is a parameter of the model (the harness supplies finditer spans per node); the replacement string is literal (no group references). The "
-    "formatted=True path is modelled by C05's append_plain_text model per rebuilt container and checked by the oracle only (characters + no raw blank runs / "
-    "tabs / newlines in rebuilt paragraphs, headings, spans); text directly inside a link is not formatted by design.",
+    "formatted=True path is modelled by C05's append_plain_text model per rebuilt container: every rebuilt container holding only text and white-space elements "
+    "is driven through the model (`ws rebuild`: children after the substitution -> children after append_plain_text('')) and must come out as the implementation "
+    "wrote it; the oracle adds characters, no raw blank runs / tabs / newlines, no raw blank at an edge, ODF normal form and equality with a fresh container; "
+    "text directly inside a link is not formatted by design.",
     technique="Lean 4 theorems (weave decomposition, matcher as a parameter, reuse of C05 theorems) + differential correspondence + lxml/re oracle",
     design="5/C16",
 )
